@@ -53,6 +53,15 @@ MCVNext ==
      \/ VEnd /\ ended' = TRUE /\ UNCHANGED <<pushed, batches, seen>>
 
 MCBufSpec == MCInit /\ [][MCBNext]_mcvars
+
+\* ... plus runs of observer calls (made by any thread, by any number of threads at once: the caller is not part of the
+\* contract state, the steps of several observers simply interleave).  A separate relation, so that the state graph the
+\* sequential histories are generated from (MCBufSpec) is unchanged.
+MCBObsNext ==
+  \/ MCBNext
+  \/ ~ended /\ \E n \in 0..Cardinality(Elems), k \in 1..2 : BSizeRun(n, k) /\ UNCHANGED <<pushed, batches, seen, ended>>
+  \/ ~ended /\ \E b \in BOOLEAN, k \in 1..2 : BEmptyRun(b, k) /\ UNCHANGED <<pushed, batches, seen, ended>>
+MCBufObsSpec == MCInit /\ [][MCBObsNext]_mcvars
 MCValSpec == MCInit /\ [][MCVNext]_mcvars
 
 -------------------------------------------------------------------------------
@@ -78,8 +87,20 @@ InPushOrder == \A p \in Producers : ProjP(Flat(batches, 1), p) \o pend[p] = push
 \* "size()/empty() never observe a torn state": the result is pushed - consumed of the current atomic state
 Consumed == Len(Flat(batches, 1))
 Pushed   == SumLen(pushed, Producers)
-SizeNotTorn  == last.op = "size"  => last.res = Pushed - Consumed
-EmptyNotTorn == last.op = "empty" => last.res = (Pushed = Consumed)
+SizeNotTorn  == last.op \in {"size", "sizes"}    => last.res = Pushed - Consumed
+EmptyNotTorn == last.op \in {"empty", "empties"} => last.res = (Pushed = Consumed)
+
+\* OBSERVER LAWS (any number of threads inside size() / empty()):
+\* an observer step changes nothing - so observers commute with each other and k of them at one state are one
+ObserverIsReadOnly == [][last'.op \in {"size", "sizes", "empty", "empties"} => UNCHANGED <<pend, asg, cur, pushed, batches>>]_mcvars
+\* mutators quiescent on a drained buffer (nothing pushed since the last consume() took everything): every observer
+\* answers "empty" / 0
+DrainedObservers == (Pushed = Consumed /\ last.op \in {"size", "sizes", "empty", "empties"})
+                      => last.res = (IF last.op \in {"size", "sizes"} THEN 0 ELSE TRUE)
+\* the poll loop: under the documented behaviour a consume() that takes effect right after the consumer's empty() = FALSE /
+\* size() > 0 (pushes in between only add) returns a non-empty batch
+SawSome(r) == (r.op \in {"empty", "empties"} /\ r.res = FALSE) \/ (r.op \in {"size", "sizes"} /\ r.res > 0)
+PollThenConsume == [][(Strict /\ last'.op = "consume" /\ SawSome(last)) => last'.res # <<>>]_mcvars
 
 \* at the end of an execution every pushed element is in exactly one batch
 NothingLost == ended /\ last.arg = "buf" => \A e \in Elems : WasPushed(e) => Occ(e) = 1
